@@ -59,6 +59,12 @@ fn run_c35(rep: &mut Report) {
     rep.bound("flows", NETS.len());
     rep.bound("raw_ids", vf_explore::json!(c35::RAW_IDS));
     rep.bound("max_messages_per_case", 2);
+    let mut st = Stats::new();
+    c35::member_ids(&mut st);
+    rep.section("member_id_round_trip", st);
+    let mut st = Stats::new();
+    c35::demux_map_routing(&mut st, thorough);
+    rep.section("demux_map_routing", st);
     let st = par_map(NETS.len(), ncpu().min(16), |i| {
         let mut st = Stats::new();
         let ctx = c35::NetCtx::new(thorough);
@@ -66,12 +72,6 @@ fn run_c35(rep: &mut Report) {
         st
     });
     rep.section("network_flows", st);
-    let mut st = Stats::new();
-    c35::member_ids(&mut st);
-    rep.section("member_id_round_trip", st);
-    let mut st = Stats::new();
-    c35::demux_map_routing(&mut st, thorough);
-    rep.section("demux_map_routing", st);
     for f in GEN_FAILURES.iter().filter(|f| f.family == "net") {
         let mut st = Stats::new();
         st.cap(format!("flow {} was not generated (reported by C41): not checked", f.id));
